@@ -166,7 +166,20 @@ def _accepts(flt, item):
         return item == flt["eq"]
     if "mod" in flt:
         return item % flt["mod"] == flt["rem"]
+    if "type" in flt:
+        return type(item).__name__ == flt["type"]
     return item >= flt["ge"]
+
+
+def _canon(value):
+    """Items that compare equal need not be the same item (1, 1.0, True): compare by type too."""
+    if isinstance(value, dict):
+        return {key: _canon(item) for key, item in value.items()}
+    if isinstance(value, (list, tuple)):
+        return [_canon(item) for item in value]
+    if isinstance(value, (bool, float)):
+        return (type(value).__name__, value)
+    return value
 
 
 # ---- generator ------------------------------------------------------------------------------
@@ -187,6 +200,8 @@ def generate(rng, tier):
 
     item = [0]
     wrap_items = rng.random() < 0.3
+    # a FilterStore holding items that compare equal without being the same item
+    twins = kind == "fstore" and rng.random() < 0.3
     processes = []
     for p in range(rng.randint(2, 5)):
         ops = []
@@ -201,6 +216,8 @@ def generate(rng, tier):
                 if rng.random() < 0.5:
                     item[0] += 1
                     value = item[0] if kind != "pstore" else rng.randint(0, 9) * 100 + item[0]
+                    if twins:
+                        value = rng.choice([1, 1.0, True, 2, 2.0, 3, 3.0, 0, False])
                     op = {"op": "put", "res": "R", "id": rid(), "item": value}
                     if kind == "pstore" and wrap_items:
                         op["wrap"] = True
@@ -210,6 +227,10 @@ def generate(rng, tier):
                         op["filter"] = rng.choice([{"mod": 2, "rem": 0}, {"mod": 2, "rem": 1},
                                                    {"mod": 3, "rem": 0}, {"ge": 4},
                                                    {"eq": rng.randint(1, 8)}])
+                        if twins:
+                            op["filter"] = rng.choice([{"type": "int"}, {"type": "float"},
+                                                       {"type": "bool"}, {"type": "float"},
+                                                       {"eq": rng.randint(0, 3)}, {"ge": 2}])
             else:
                 op = {"op": "request", "res": "R", "id": rid(),
                       "hold": rng.choice([0, 0.5, 1, 2, 3])}     # 0: zero-length critical section
@@ -264,7 +285,7 @@ class Follower:
         self.compared += 1
         if model.putq or model.getq:
             self.queued = True
-        if observed != expected and len(self.bad) < 5:
+        if _canon(observed) != _canon(expected) and len(self.bad) < 5:
             self.bad.append(("state", "after %s of %s (%s) at t=%r: observed %r, reference %r"
                              % (what, rid, kind or "", now, observed, expected)))
         triggered = {r for r, ev in world.requests.items() if ev.triggered}
@@ -307,7 +328,7 @@ def check(rec):
     for ev in rec.trace:
         if ev[4] == "get.done":
             want = model.granted.get(ev[6], "<not granted>")
-            if model.kind != "container" and ev[7] != want:
+            if model.kind != "container" and _canon(ev[7]) != _canon(want):
                 bad("value", "%s received %r from %s, reference %r" % (ev[3], ev[7], ev[6], want))
     # preemptions
     seen = [(ev[3], ev[5]) for ev in rec.trace if ev[4] == "interrupted"
